@@ -53,12 +53,29 @@ fn gradient(x: &[f64], y: &[f64], c: &[f64]) -> Vec<f64> {
 }
 
 fn fit_suite(run: &Run, x: &[f64], y: &[f64], d: usize, des: &Design, truth: Option<&[f64]>, tag: &str) {
+    fit_suite_h(run, x, y, d, des, truth, tag, None)
+}
+
+/// `prior`: data the same regressor object was fitted to before (the property speaks about every
+/// fit, not only the first one of an object)
+fn fit_suite_h(run: &Run, x: &[f64], y: &[f64], d: usize, des: &Design, truth: Option<&[f64]>, tag: &str, prior: Option<(&[f64], &[f64])>) {
     run.case();
     run.tr();
     run.ok();
     let n = x.len();
     let desc = || format!("{} degree {} on {} points x={:?} y={:?}", tag, d, n, &x[..n.min(9)], &y[..n.min(9)]);
     let mut pr = PolynomialRegressor::new(d);
+    if let Some((px, py)) = prior {
+        if guard(|| {
+            pr.fit(px, py);
+        })
+        .is_err()
+        {
+            run.skip("prior fit panicked");
+            return;
+        }
+        run.regime("refit");
+    }
     if let Err(p) = guard(|| {
         pr.fit(x, y);
     }) {
@@ -118,7 +135,7 @@ fn abscissae(run: &Run) -> Vec<(String, Vec<f64>)> {
 }
 
 pub fn run(run: &Run) {
-    run.rule("degrees 0..=6 × {integer, half, quarter grids; Chebyshev points (5..33 nodes) rounded to 2^-10; clustered; one-sided; uniform 40, 200, 1000, 1024, 1025, 1500, 2000, 2049 points} × every response over {-1,0,1}^n for the point sets with n ≤ 8 (all sub-selections of the integer/half grids) and polynomial + fixed noise patterns at noise scales {0,1e-3,1,1e3} and whole-response scales {1e-19,1e-16,1e-6,1,1e12}; predict on every coefficient vector over {-2..2}^(d+1), d ≤ 3; non-trivial = degree ≥ 1");
+    run.rule("degrees 0..=6 × {integer, half, quarter grids; Chebyshev points (5..33 nodes) rounded to 2^-10; clustered; one-sided; uniform 40, 200, 1000, 1024, 1025, 1500, 2000, 2049 points} × every response over {-1,0,1}^n for the point sets with n ≤ 8 (all sub-selections of the integer/half grids) and polynomial + fixed noise patterns at noise scales {0,1e-3,1,1e3} and whole-response scales {1e-19,1e-16,1e-6,1,1e12}; each also on a regressor object that was fitted before to responses of scale 1e12 or to another point set; predict on every coefficient vector over {-2..2}^(d+1), d ≤ 3; non-trivial = degree ≥ 1");
     let sets = abscissae(run);
     // 1. every response over {-1,0,1}^n on small abscissa sets
     let small_sets: Vec<Vec<f64>> = vec![
@@ -180,6 +197,14 @@ pub fn run(run: &Run) {
                     .collect();
                 fit_suite(run, x, &y, d, &des, if scale == 0.0 { Some(&truth) } else { None }, name);
                 run.nontrivial(1);
+                // the same object fitted before to other data (huge responses; a different point set)
+                if variant < 2 && (scale == 0.0 || scale == 1.0) {
+                    let yb: Vec<f64> = y.iter().enumerate().map(|(i, v)| (v + (i % 3) as f64) * 1e12).collect();
+                    fit_suite_h(run, x, &y, d, &des, if scale == 0.0 { Some(&truth) } else { None }, &format!("{} (refit after responses of scale 1e12)", name), Some((x, &yb)));
+                    let xo: Vec<f64> = (0..(d + 3)).map(|i| -1.0 + 0.25 * i as f64).collect();
+                    let yo: Vec<f64> = xo.iter().map(|v| 1e6 * (1.0 + v * v)).collect();
+                    fit_suite_h(run, x, &y, d, &des, if scale == 0.0 { Some(&truth) } else { None }, &format!("{} (refit after another data set)", name), Some((&xo, &yo)));
+                }
                 // least squares is homogeneous in y: the same data at microscopic and huge response scales
                 if variant == 0 && (scale == 0.0 || scale == 1.0) {
                     for ys in [1e-19, 1e-16, 1e-6, 1e12] {
@@ -226,6 +251,7 @@ pub fn run(run: &Run) {
     }
     run.require_regime("interpolation");
     run.require_regime("overdetermined");
+    run.require_regime("refit");
     run.bound("abscissa families", format!("{} families, up to {} points", sets.len(), run.tier.pick(200, 2000)));
     run.assume("first-order condition |V^T(y−Vc)|∞ ≤ (64(d+1)²+2n)u·cond(V^T V)·(‖V^T V‖‖c‖ + n·max|x|^d·‖y‖): the normal-equation method is granted its own conditioning; designs with cond(V^T V) > 1e9 are skipped");
     run.assume("abscissae are dyadic so that the Gram matrix and the gradient are evaluated essentially exactly in double-double");
